@@ -38,3 +38,11 @@ add("C18","exploration",
     "Held on every quiescent point produced (hundreds per run): SHOW CLIENTS equals the harness ledger of connected clients (each once, right identity, idle), SHOW POOLS client/server counts add up and match the backend's open sessions, SHOW SERVERS/LISTS consistent, SHOW STATS totals equal the mock backend's count of client transactions and requests and never decrease; clients leave by Terminate, FIN, RST, FIN mid-transaction, malformed messages (decoder panics).",
     "Trusted: harness ledger and mock counters; comparisons only at quiescence (two identical consecutive samples) because pgcat's counters are relaxed atomics; statement caching off.",
     "runtime monitoring: admin console rows vs harness ledger and mock counters at quiescent points", "DESIGN.md 5 C18")
+add("C07","fault_enumeration",
+    "Held on every fault script produced: random scripts over {down, accept-and-hang, hang on query, health-check hang, close mid-reply, slow, admin BAN/UNBAN} against 1-3 replicas with looping clients of every role request, judged with happens-before margins on the mock log, client outcomes and latencies, pgcat's ban/checkout hook events and SHOW BANS samples; scripted leg for BAN/UNBAN/unban-all/expiry/primary-never-banned.",
+    "Trusted: ban and checkout hook events as happens-before anchors (verdict-bearing facts are still client outcomes and mock arrivals); an error is excused only if the statement's server had a fault or no candidate had been continuously healthy; ban-expiry liveness is restated as bounded progress (80 eligible transactions).",
+    "runtime monitoring with fault injection: mock log + hook anchors + admin console, happens-before oracle", "DESIGN.md 5 C07")
+add("C20","fault_enumeration",
+    "Held on every scenario produced: the same seeded client program run with 1-2 mirrors under a random mirror fault schedule (down, accept-and-hang/close, hang on query, slow, trickling replies, close/hang mid-reply, error replies) and without mirrors gives identical client-visible replies; latency verdicts are taken only from isolated re-runs; every mirror session's inbound traffic embeds as whole messages, in order, into one session of the mirrored server.",
+    "Trusted: latency criterion 10x no-mirror latency + 250 ms, confirmed in >=2 of 4 isolated runs; backend identity fields masked in the differential comparison.",
+    "runtime monitoring with fault injection: differential replies/latency + subsequence embedding of mirror traffic", "DESIGN.md 5 C20")
